@@ -230,14 +230,51 @@ def s_field(g, depth):
     return use_instance(g, v.name, info)
 
 
+def inner_has_base(r):
+    return False
+
+
 def s_clsmisc(g, depth):
     """non-class superclass, inherited statics through the subclass, rebinding the superclass name,
     class declared in a function capturing locals"""
     r = g.r
     if getattr(g, "try_ctx", [[]])[-1]:
         return g.s_print(depth)
-    c = r.below(4)
+    c = r.below(6)
     n = g.fresh("Z")
+    if c >= 4:
+        # a class declared inside a method of another class: in a static method, an instance method, a constructor or a
+        # lambda inside a method; the inner class has its own self / Self / super, and may capture the outer method's
+        # locals and (from an instance method) the outer self
+        where = r.choice(["static", "static", "instance", "ctor", "lambda"])
+        inner = ["        #[derive(%sInnerBase)]" % n if r.chance(40) else "",
+                 "        class Inner {", "            #[constructor]", "            fn new(self, x) { self.x = x * scale; }",
+                 "            fn sum(self) { return self.x + scale; }", "            fn adder(self) { return |k| self.sum() + k; }",
+                 "            #[static]", "            fn origin() { return Self.new(0); }",
+                 "            fn who(self) { return [\"inner\", %s]; }" % ("super.who()" if inner_has_base(r) else "scale"),
+                 "        }"]
+        has_base = inner[0] != ""
+        inner[8] = "            fn who(self) { return [\"inner\", %s]; }" % ("super.who()" if has_base else "scale")
+        inner = [l for l in inner if l]
+        L = ["class %sInnerBase { fn who(self) { return \"base\"; } }" % n, "class %sOuter {" % n]
+        if where == "static":
+            L += ["    #[static]", "    fn make(scale) {"] + inner + ["        return Inner;", "    }", "    #[constructor]", "    fn new(self) { self.tag = \"outer\"; }"]
+            get = "%sOuter.make(%d)" % (n, r.range(1, 5))
+        elif where == "instance":
+            L += ["    #[constructor]", "    fn new(self) { self.tag = \"outer\"; }", "    fn make(self, scale) {", "        var me = self;"] + inner + [
+                "        return Inner;", "    }"]
+            get = "%sOuter.new().make(%d)" % (n, r.range(1, 5))
+        elif where == "ctor":
+            L += ["    #[constructor]", "    fn new(self, scale) {"] + inner + ["        self.cls = Inner;", "        self.tag = \"outer\";", "    }"]
+            get = "%sOuter.new(%d).cls" % (n, r.range(1, 5))
+        else:
+            L += ["    #[constructor]", "    fn new(self) { self.tag = \"outer\"; }", "    fn maker(self) {", "        return |scale| {"] + ["    " + l for l in inner] + [
+                "            return Inner;", "        };", "    }"]
+            get = "%sOuter.new().maker()(%d)" % (n, r.range(1, 5))
+        L += ["    fn tagof(self) { return self.tag; }", "    #[static]", "    fn kind() { return \"outer kind\"; }", "}",
+              "var %sI = %s;" % (n, get), "var %so = %sI.new(3);" % (n, n), "print(%so.sum());" % n, "print(%so.adder()(10));" % n,
+              "print(%sI.origin().sum());" % n, "print(%so.who());" % n, "print(%sOuter.kind());" % n, "print(type(%so) == %sI);" % (n, n)]
+        return L
     if c == 0:
         bad = g.fresh("notclass")
         return ["var %s = %s;" % (bad, r.choice(["1", "nil", "\"s\"", "|| 1"])),
